@@ -58,6 +58,13 @@ CLAIMED = {
         'The stand-in found two genuine defects (bracketed argument name+value rejected; ArgsMatcherList.simplify changing the meaning), both repaired by fix: commits.',
    note='Bounded: parser layer (6000 generated expressions per quick run, 60000 thorough), regular-expression based WildcardMatcher, EqMatcher over untyped values. Trusted: Matcher.matches interface contract for sub-matchers (pure), field schema. simplify() is covered only through the bounded comparison.',
    technique='contract-based deductive verification of every matches override (defining contracts, loop invariants); bounded native contract evaluation for the string parser'),
+ 'C01': dict(level='other', design='6.C01',
+   text='Within the verifier: end_of_str (for backslash-free text it stops at the next quote after the opening one or at the end; always moves forward; terminates) and argument_list_strs (never fails, terminates, nothing from the empty text) - discharged obligations on the real loops. '
+        'The decoding itself is regular-expression matching, outside the verifier: parse.message is under a bounded stand-in - messages are generated as abstract values, rendered as libwayland prints them in both dialects (every argument kind in every position, 0..20 arguments, 32-bit boundary values, both fixed renderings, '
+        'array / array[N], queue and connection tags, strings with commas, brackets, parentheses, quotes-free look-alike message text) and the decoded message is compared field by field; generated non-message lines must raise. '
+        'The stand-in found four genuine defects on the pinned tree (array[N], empty string, message-like string argument, greedy queue tag), each repaired by its own fix: commit.',
+   note='Bounded, not proved: 4000 generated lines per quick run, 60000 per thorough run. `new id T@nil`, discarded lines and locale commas in the current dialect are outside the generator. The positions at which argument_list_strs cuts are only checked through the bounded comparison. Timestamps (ms -> s) are not compared (C16 fixes the time base).',
+   technique='contract-based deductive verification of the two string loops; bounded native contract evaluation (reference renderer of wl_closure_print) for the regular-expression decoder'),
  'C19': dict(level='proof', design='6.C19',
    text='_split_command (real nested loops, inner ones unrolled over the literal marker table): the split is at the first marker word (alias, or single-dash cluster ending in g/r), everything before is ours verbatim, everything after is forwarded verbatim and in order, no marker means no mode; '
         '_strip_dashes removes exactly the leading dashes; _select_mode returns a mode iff exactly one of run/gdb/load/pipe is selected (gdb-plugin aside) and None on conflict or none. '
